@@ -44,6 +44,7 @@ def captured():
 
 
 VIA_READER = 0.12
+DEEP_COPY = 0.06
 
 
 def live_tree(ctx, spec, rng=None, style='export', via=None):
@@ -60,6 +61,17 @@ def live_tree(ctx, spec, rng=None, style='export', via=None):
             if live is not None:
                 ctx.stratum('live tree built by a reader')
                 return live
+        if r.random() < DEEP_COPY:
+            # a deep copy of the tree, the original thrown away (how callers
+            # keep a tree while the transformations work in place)
+            import copy
+            import gc
+            live = model.build_live_tree(spec, ctx.R.trees, rng, style)
+            twin = copy.deepcopy(live)
+            del live
+            gc.collect()
+            ctx.stratum('live tree is a deep copy')
+            return twin
     return model.build_live_tree(spec, ctx.R.trees, rng, style)
 
 
